@@ -63,6 +63,7 @@ func Run(ctx *core.Ctx) {
 	// ---- the JavaScript counterparts
 	JSCounterparts(ctx)
 	wg.Wait()
+	ctx.Extra["cases_violating_per_signature"] = reporter.Counts()
 }
 
 // ---------------------------------------------------------------------------
@@ -186,6 +187,8 @@ func clip(s string) string {
 	return s
 }
 
+var reporter = NewReporter()
+
 func report(ctx *core.Ctx, engine string, chain []Dir, val map[string]interface{}, text, mid, out, fault, expected string) {
 	d := chain[len(chain)-1]
 	in := text
@@ -193,6 +196,9 @@ func report(ctx *core.Ctx, engine string, chain []Dir, val map[string]interface{
 		in = mid
 	}
 	sig := core.Sig{Family: engine, Feature: Feature(d, in, out, fault)}
+	if !reporter.First(sig) {
+		return
+	}
 	rc := replayCase{Kind: "c16", Engine: engine, Chain: chain, Value: val, InputQ: strconv.Quote(clip(text)),
 		OutQ: strconv.Quote(clip(out)), Expected: expected, Fault: fault}
 	if len(text) <= 4096 {
@@ -229,7 +235,7 @@ func ModelCheck(ctx *core.Ctx) {
 	var wg sync.WaitGroup
 	run := func(label, dev, mode string, maxLen, workers int, wantViolated bool) {
 		defer wg.Done()
-		res, err := ctx.RunTLC(core.TLCOpts{Module: "C16Model", Cfg: cfg16(dev, mode, maxLen, 1), Workers: workers,
+		res, err := RunTLC(ctx, core.TLCOpts{Module: "C16Model", Cfg: cfg16(dev, mode, maxLen, 1), Workers: workers,
 			Timeout: 9 * time.Minute, Label: label})
 		if err != nil {
 			ctx.ToolError("M1 %s: %v", label, err)
@@ -247,11 +253,11 @@ func ModelCheck(ctx *core.Ctx) {
 	go run("M1-chain", "", "chain", ctx.Pick(2, 3), ctx.Pick(3, 4), false)
 	devOK := map[string]string{}
 	var mu sync.Mutex
-	for _, dev := range quickDevs {
+	for _, dev := range QuickSubset(ctx, quickDevs, 2) {
 		wg.Add(1)
 		go func(dev string) {
 			defer wg.Done()
-			res, err := ctx.RunTLC(core.TLCOpts{Module: "C16Model", Cfg: cfg16(dev, "single", 1, 1), Workers: 1,
+			res, err := RunTLC(ctx, core.TLCOpts{Module: "C16Model", Cfg: cfg16(dev, "single", 1, 1), Workers: 1,
 				Timeout: 5 * time.Minute, Label: "M1-dev-" + dev})
 			if err != nil {
 				ctx.ToolError("M1 deviation %s: %v", dev, err)
@@ -297,7 +303,7 @@ const canary = "é€\"\\\n<&>'"
 
 // ExportCases asks TLC for the M2 case table.
 func ExportCases(ctx *core.Ctx) *Export {
-	res, err := ctx.RunTLC(core.TLCOpts{Module: "C16Model", Cfg: cfg16("", "export", 1, ctx.Pick(1, 2)), Workers: 1,
+	res, err := RunTLC(ctx, core.TLCOpts{Module: "C16Model", Cfg: cfg16("", "export", 1, ctx.Pick(1, 2)), Workers: 1,
 		Timeout: 5 * time.Minute, Label: "M2-export"})
 	if err != nil {
 		ctx.ToolError("M2 export: %v", err)
@@ -723,7 +729,7 @@ func validate(ctx *core.Ctx, engine string, lines []traceLine) {
 		buf.WriteByte('\n')
 	}
 	cfg := "CONSTANT DirDev = {}\nINIT Init\nNEXT Next\nINVARIANT Report\nPOSTCONDITION TraceAccepted\nCHECK_DEADLOCK FALSE\n"
-	res, err := ctx.RunTLC(core.TLCOpts{Module: "C16Trace", Cfg: cfg, Files: map[string][]byte{"c16_trace.ndjson": buf.Bytes()},
+	res, err := RunTLC(ctx, core.TLCOpts{Module: "C16Trace", Cfg: cfg, Files: map[string][]byte{"c16_trace.ndjson": buf.Bytes()},
 		Workers: 1, Timeout: 9 * time.Minute, Label: "M3-trace-validation-" + engine})
 	if err != nil {
 		ctx.ToolError("M3: %v", err)
